@@ -16,7 +16,7 @@ var vpIntrinsics map[string]intrinsic
 func init() {
 	vpIntrinsics = map[string]intrinsic{
 		"vpTier":       vpTier,
-		"vpSymbolic":   func(e *Exec, _ *frame, _ *ssa.Function, _ []Value) Value { return e.c.Bool(!e.concrete) },
+		"vpSymbolic":   func(e *Exec, _ *frame, _ *ssa.Function, _ []Value) Value { return e.c.True }, // "running in the engine" (also in concrete-engine replay)
 		"vpBool":       vpBool,
 		"vpInt64":      func(e *Exec, _ *frame, _ *ssa.Function, a []Value) Value { return e.freshInt(argStr(e, a[0]), 64) },
 		"vpInt":        func(e *Exec, _ *frame, _ *ssa.Function, a []Value) Value { return e.freshInt(argStr(e, a[0]), 64) },
